@@ -94,6 +94,17 @@ def variants(inst, rng, sc):
         if f["arg"]["n"] in args0:
             f["op"] = "one_of"; f["arg"] = {"k": "var", "n": v}
             yield "equal", [inst, mk(q, args, "eq_as_one_of")]
+    # 5b. the same on a fold's count (the engine's count is unsigned, the argument a signed integer), for `=` and, as `!=` / not_one_of, its negation
+    ceqs = [(p, j) for p, n, uf, uo in scopes if n["mode"] == "fold" and "count" in n for j, f in enumerate(n["count"]["filters"]) if f["op"] in ("=", "!=") and f["arg"]["k"] == "var" and f["arg"]["n"] in args0]
+    if ceqs:
+        p, j = rng.choice(ceqs)
+        q = copy.deepcopy(q0); f = at(q, p)["count"]["filters"][j]; args = dict(args0); v = fresh_var(args)
+        args[v] = L([args0[f["arg"]["n"]]])
+        f["op"] = "one_of" if f["op"] == "=" else "not_one_of"; f["arg"] = {"k": "var", "n": v}
+        used = [ff["arg"]["n"] for _, n, _, _ in paths(q) for pr in n["props"] for ff in pr["filters"] if ff["arg"]["k"] == "var"] + \
+               [ff["arg"]["n"] for _, n, _, _ in paths(q) if "count" in n for ff in n["count"]["filters"] if ff["arg"]["k"] == "var"]
+        args = {k: x for k, x in args.items() if k in used}
+        yield "equal", [inst, mk(q, args, "count_eq_as_one_of")]
     # 6. filter / negation partition (scope not under optional or fold; the scope itself may be optional? no: outside missing optional scopes)
     fs = [(p, i, j) for p, n, uf, uo in scopes if not uf and not uo for i, pr in enumerate(n["props"]) for j, f in enumerate(pr["filters"]) if f["op"] in NEG and f["arg"]["k"] in ("var", "none")]
     if fs:
